@@ -90,6 +90,9 @@ func Universe() []UVal {
 		specU(`"first"`, SStr("first")),
 		specU(`"a"`, SStr("a")),
 		specU("4KiB", SStr(long)),
+		specU(`"unicode-ws"`, SStr("one\u00a0two\fthree\vfour\u2003five\u3000six\u0085seven\u2028eight nine")),
+		specU(`"ws-only"`, SStr(" \t\n\u00a0\u3000")),
+		specU(`"nul\x00ff"`, SStr("a\x00b\xffc")),
 		specU("[]", SArr()),
 		specU("[3,1,2]", SArr(SInt(3), SInt(1), SInt(2))),
 		specU("[1]", SArr(SInt(1))),
